@@ -35,6 +35,7 @@ import unified_planning as up
 import unified_planning.environment
 import unified_planning.engines as engines
 import unified_planning.engines.mixins as mixins
+from unified_planning.engines.compilers.grounder import GrounderHelper
 from unified_planning.model.action import DurativeAction, InstantaneousAction
 from unified_planning.model.effect import Effect, EffectKind, SimulatedEffect
 from unified_planning.model.fluent import get_all_fluent_exp
@@ -520,7 +521,9 @@ class TimeTriggeredPlanValidator(engines.engine.Engine, mixins.PlanValidatorMixi
         )
 
     def _ground_expression(self, formula: FNode, ai: Optional[ActionInstance]) -> FNode:
-        if ai is None:
+        if ai is None or isinstance(ai.action, InstantaneousAction):
+            # timed effects and goals have no parameters; the effects of an
+            # instantaneous action are scheduled already grounded
             return formula
         else:
             return formula.substitute(
@@ -544,6 +547,7 @@ class TimeTriggeredPlanValidator(engines.engine.Engine, mixins.PlanValidatorMixi
         assert isinstance(problem, Problem)
         em = problem.environment.expression_manager
         se = StateEvaluator(problem=problem)
+        grounder = GrounderHelper(problem, prune_actions=False)
 
         start_actions: List[Tuple[Fraction, ActionInstance, Optional[Fraction]]] = list(
             plan.timed_actions
@@ -706,7 +710,27 @@ class TimeTriggeredPlanValidator(engines.engine.Engine, mixins.PlanValidatorMixi
                             )
                             next_id += 1
                 elif isinstance(ai.action, InstantaneousAction):
-                    a = cast(InstantaneousAction, ai.action)
+                    # The instance is grounded as the UPSequentialSimulator grounds it,
+                    # so that the SequentialPlanValidator and this validator evaluate
+                    # the same (simplified) conditions and effects
+                    a = grounder.ground_action(ai.action, ai.actual_parameters)
+                    if a is None:
+                        logs = [
+                            LogMessage(
+                                LogLevel.INFO,
+                                f"The action instance {ai} does not ground to a valid action",
+                            )
+                        ]
+                        return ValidationResult(
+                            status=ValidationResultStatus.INVALID,
+                            engine_name=self.name,
+                            log_messages=logs,
+                            metric_evaluations=None,
+                            reason=FailedValidationReason.INAPPLICABLE_ACTION,
+                            inapplicable_action=ai,
+                            trace=trace,
+                        )
+                    assert isinstance(a, InstantaneousAction)
                     heapq.heappush(
                         scheduled_effects,
                         (start_time, next_id, a.effects, a.simulated_effect, ai),
@@ -714,12 +738,7 @@ class TimeTriggeredPlanValidator(engines.engine.Engine, mixins.PlanValidatorMixi
                     next_id += 1
                     for c in a.preconditions:
                         durative_conditions.append(
-                            (
-                                (start_time, start_time, False),
-                                next_id,
-                                self._ground_expression(formula=c, ai=ai),
-                                ai,
-                            )
+                            ((start_time, start_time, False), next_id, c, ai)
                         )
                         next_id += 1
                 else:
